@@ -1,5 +1,5 @@
 CONSTANTS
-  Families = {"strings", "elements", "types", "tables", "headers", "witness", "kinds"}
+  Families = {"strings", "curated", "elements", "types", "tables", "headers", "witness", "kinds"}
   MaxStr = 3
   MaxCols = 2
 INIT Init
